@@ -316,9 +316,19 @@ def matchTypeVersions (typeVer target : Bytes) : Bool :=
     | none => tl == target
     | some n => (List.range (n.toNat + 1)).any fun v => (n ≥ 0) && (base ++ COLON :: natDec v == target)
 
-/-- number of responses `_build_responses` produces -/
+/-- Python `str.lower()` as far as equality with an ASCII string can tell: ASCII letters, and
+    U+212A KELVIN SIGN (UTF-8 `E2 84 AA`), the only non-ASCII character whose lower-case form is
+    pure ASCII (`k`).  Every other non-ASCII character lower-cases to text that still contains a
+    non-ASCII character (U+0130 gives `i` + U+0307), so it can never complete an ASCII target;
+    such bytes are left as they are.  (Enumerated over all code points by the harness on every run.) -/
+def lowerPy : Bytes → Bytes
+  | 226 :: 132 :: 170 :: r => 107 :: lowerPy r
+  | b :: r => lowerB b :: lowerPy r
+  | [] => []
+
+/-- number of responses `_build_responses` produces (device UDNs and types are ASCII) -/
 def responseCount (cfg : Cfg) (h : Hdrs) : Nat :=
-  let target := lower (strOf (getL h "st"))
+  let target := lowerPy (strOf (getL h "st"))
   let n :=
     if target == ofString "ssdp:all" then 1 + 2 * cfg.devices.length + cfg.services.length
     else if target == ofString "upnp:rootdevice" then 1
